@@ -54,6 +54,8 @@ pub fn install_scheduler() -> Arc<Sched> {
 }
 
 pub struct RunOut {
+    /// saver granted at each scheduling step: the interleaving
+    pub grants: Vec<usize>,
     pub choices: Vec<usize>,
     pub options: Vec<usize>,
     pub outs: Vec<Result<Vec<u8>, String>>,
@@ -88,6 +90,7 @@ pub fn run_schedule(books: &[Arc<Spreadsheet>], light: bool, sched: &Arc<Sched>,
         }));
     }
     let mut choices = vec![];
+    let mut grants = vec![];
     let mut options = vec![];
     let mut step = 0;
     let mut stuck = None;
@@ -127,6 +130,7 @@ pub fn run_schedule(books: &[Arc<Spreadsheet>], light: bool, sched: &Arc<Sched>,
         let idx = pick(step, ready.len()).min(ready.len() - 1);
         options.push(ready.len());
         choices.push(idx);
+        grants.push(ready[idx]);
         step += 1;
         st.granted = Some(ready[idx]);
         sched.cv.notify_all();
@@ -137,7 +141,7 @@ pub fn run_schedule(books: &[Arc<Spreadsheet>], light: bool, sched: &Arc<Sched>,
     }
     let log = std::mem::take(&mut sched.m.lock().unwrap().log);
     sched.m.lock().unwrap().controlled = false;
-    RunOut { choices, options, outs, log, stuck }
+    RunOut { grants, choices, options, outs, log, stuck }
 }
 
 /// text cells of the first sheet and the shared string table, read from the file without library code
@@ -174,7 +178,45 @@ pub fn decode_texts(xlsx: &[u8]) -> Result<(Vec<(String, String)>, Vec<String>),
     Ok((cells, sst))
 }
 
+/// lazily opened workbook: sheet 0 materialised (k strings, half of them new), sheet 1 never deserialized
+fn lazy_book(k: usize, tag: &str) -> Spreadsheet {
+    let mut src = new_file();
+    src.new_sheet("Raw").unwrap();
+    for i in 0..k {
+        src.get_sheet_mut(&0).unwrap().get_cell_mut((1u32, (i + 1) as u32)).set_value_string(format!("A-{}", i));
+        src.get_sheet_mut(&1).unwrap().get_cell_mut((1u32, (i + 1) as u32)).set_value_string(format!("R-{}", i));
+    }
+    let mut cur = std::io::Cursor::new(Vec::new());
+    writer::xlsx::write_writer(&src, &mut cur).unwrap();
+    cur.set_position(0);
+    let mut b = reader::xlsx::read_reader(cur, false).unwrap();
+    for i in 0..k {
+        if i % 2 == 1 {
+            b.get_sheet_mut(&0).unwrap().get_cell_mut((1u32, (i + 1) as u32)).set_value_string(format!("{}-{}", tag, i));
+        } else {
+            let _ = b.get_sheet_mut(&0);
+        }
+    }
+    b
+}
+
 fn make_books(k: usize, mode: &str, share: bool, nsavers: usize) -> Vec<Arc<Spreadsheet>> {
+    if mode == "lazy-shared" {
+        let a = Arc::new(lazy_book(k, "N"));
+        return (0..nsavers).map(|_| a.clone()).collect();
+    }
+    if mode == "lazy-clones" {
+        let a = lazy_book(k, "N");
+        return (0..nsavers)
+            .map(|s| {
+                let mut b = a.clone();
+                if s > 0 {
+                    b.get_sheet_mut(&0).unwrap().get_cell_mut((2u32, 1u32)).set_value_string(format!("clone{}-extra", s));
+                }
+                Arc::new(b)
+            })
+            .collect();
+    }
     let mut a = new_file();
     for i in 0..k {
         a.get_sheet_mut(&0).unwrap().get_cell_mut((1u32, (i + 1) as u32)).set_value_string(format!("A-{}", i));
@@ -242,148 +284,244 @@ fn check_run(o: &mut Outcome, books: &[Arc<Spreadsheet>], r: &RunOut, label: &st
     }
 }
 
-pub fn run(args: &Args) {
-    let sched = install_scheduler();
-    let thorough = args.tier == "thorough";
-    let mut o = Outcome::default();
+/// one unit of controlled-schedule work; units run in child processes (the hook and scheduler are process-global)
+#[derive(Clone)]
+struct Unit {
+    label: String,
+    k: usize,
+    mode: &'static str,
+    light: bool,
+    nsavers: usize,
+    /// 0 = exhaustive; otherwise stop the DFS after that many schedules
+    cap: u64,
+    /// Some((part, parts, n)): seeded random schedules instead of DFS
+    random: Option<(u64, u64, u64)>,
+}
+
+const MODES: [&str; 6] = ["equal", "disjoint", "overlap", "shared-reference", "lazy-shared", "lazy-clones"];
+
+fn units(thorough: bool) -> Vec<Unit> {
+    let mut v = vec![];
+    let ks: Vec<usize> = if thorough { vec![1, 2, 3, 4, 5] } else { vec![1, 2, 3] };
+    for &k in &ks {
+        for mode in MODES {
+            for light in [true, false] {
+                v.push(Unit { label: format!("dfs k={} {} {}", k, mode, if light { "light" } else { "standard" }), k, mode, light, nsavers: 2, cap: 0, random: None });
+            }
+        }
+    }
+    // three savers: exhaustive for one string each (thorough), bounded DFS prefixes otherwise
+    for k in [1usize, 2] {
+        for mode in ["disjoint", "overlap", "shared-reference", "lazy-shared"] {
+            if !thorough && (k > 1 || mode == "disjoint") {
+                continue;
+            }
+            let cap = if !thorough { 1500 } else if k == 1 { 0 } else { 40_000 };
+            v.push(Unit { label: format!("dfs3 k={} {}", k, mode), k, mode, light: true, nsavers: 3, cap, random: None });
+        }
+    }
+    let (parts, n) = if thorough { (16, 40_000) } else { (4, 400) };
+    for p in 0..parts {
+        v.push(Unit { label: format!("random part {}", p), k: 0, mode: "", light: true, nsavers: 0, cap: 0, random: Some((p, parts, n / parts)) });
+    }
+    v
+}
+
+fn run_unit(u: &Unit, seed: u64, sched: &Arc<Sched>, o: &mut Outcome) -> (u64, u64, bool) {
     let mut distinct: BTreeSet<Vec<usize>> = BTreeSet::new();
     let mut schedules = 0u64;
-    let mut per_config: BTreeMap<String, u64> = BTreeMap::new();
-    // (a1) exhaustive DFS
-    let ks: Vec<usize> = if thorough { vec![1, 2, 3, 4] } else { vec![1, 2, 3] };
-    for &k in &ks {
-        for mode in ["equal", "disjoint", "overlap", "shared-reference"] {
-            for light in [true, false] {
-                if !light && k > 2 && !thorough {
-                    continue;
+    let mut complete = true;
+    if let Some((part, _parts, n)) = u.random {
+        let mut rng = Rng::new(seed, 1600 + part);
+        for j in 0..n {
+            let k = rng.range(2, 8) as usize;
+            let mode = *rng.pick(&MODES);
+            let nsavers = rng.range(2, 3) as usize;
+            let light = rng.chance(3, 4);
+            let books = make_books(k, mode, mode == "shared-reference", nsavers);
+            // PCT-like: one saver is preferred, with a few random change points
+            let mut prio = rng.below(nsavers as u64) as usize;
+            let mut r2 = rng.clone();
+            let r = run_schedule(&books, light, sched, &mut |_step, n| {
+                if r2.chance(1, 6) {
+                    prio = r2.below(3) as usize;
                 }
-                let books = make_books(k, mode, mode == "shared-reference", 2);
-                let label = format!("dfs k={} {} {}", k, mode, if light { "light" } else { "standard" });
-                let mut prefix: Vec<usize> = vec![];
-                loop {
-                    let pfx = prefix.clone();
-                    let r = run_schedule(&books, light, &sched, &mut |step, _n| if step < pfx.len() { pfx[step] } else { 0 });
-                    schedules += 1;
-                    *per_config.entry(label.clone()).or_insert(0) += 1;
-                    let sig: Vec<usize> = r.log.iter().filter(|e| e.1 != "sst.reg.done").map(|e| e.0).collect();
-                    let mut key = vec![k, light as usize, fnv(mode) as usize % 997];
-                    key.extend(sig);
-                    distinct.insert(key);
-                    check_run(&mut o, &books, &r, &label);
-                    if r.stuck.is_some() || !o.divs.is_empty() && o.divs.len() > 20 {
-                        break;
-                    }
-                    // next schedule: bump the last choice that still has an unexplored sibling
-                    let mut c = r.choices.clone();
-                    let mut i = c.len();
-                    let mut advanced = false;
-                    while i > 0 {
-                        i -= 1;
-                        if c[i] + 1 < r.options[i] {
-                            c[i] += 1;
-                            c.truncate(i + 1);
-                            advanced = true;
-                            break;
-                        }
-                    }
-                    if !advanced {
-                        break;
-                    }
-                    prefix = c;
+                if r2.chance(1, 3) {
+                    r2.below(n as u64) as usize
+                } else {
+                    prio.min(n - 1)
                 }
+            });
+            rng.next();
+            schedules += 1;
+            let mut key = vec![k, light as usize, nsavers, fnv(mode) as usize % 997];
+            key.extend(r.grants.iter());
+            distinct.insert(key);
+            check_run(o, &books, &r, &format!("random#{}.{} k={} {} savers={} {}", part, j, k, mode, nsavers, if light { "light" } else { "standard" }));
+            if r.stuck.is_some() {
+                break;
             }
         }
+        return (schedules, distinct.len() as u64, false);
     }
-    // three savers, exhaustive, for the smallest configurations (thorough tier)
-    if thorough {
-        for k in [1usize, 2] {
-            for mode in ["disjoint", "overlap", "shared-reference"] {
-                let books = make_books(k, mode, mode == "shared-reference", 3);
-                let label = format!("dfs3 k={} {}", k, mode);
-                let mut prefix: Vec<usize> = vec![];
-                loop {
-                    let pfx = prefix.clone();
-                    let r = run_schedule(&books, true, &sched, &mut |step, _n| if step < pfx.len() { pfx[step] } else { 0 });
-                    schedules += 1;
-                    *per_config.entry(label.clone()).or_insert(0) += 1;
-                    let sig: Vec<usize> = r.log.iter().filter(|e| e.1 != "sst.reg.done").map(|e| e.0).collect();
-                    let mut key = vec![k, 3, fnv(mode) as usize % 997];
-                    key.extend(sig);
-                    distinct.insert(key);
-                    check_run(&mut o, &books, &r, &label);
-                    if r.stuck.is_some() || o.divs.len() > 20 || per_config[&label] > 60_000 {
-                        break;
-                    }
-                    let mut c = r.choices.clone();
-                    let mut i = c.len();
-                    let mut advanced = false;
-                    while i > 0 {
-                        i -= 1;
-                        if c[i] + 1 < r.options[i] {
-                            c[i] += 1;
-                            c.truncate(i + 1);
-                            advanced = true;
-                            break;
-                        }
-                    }
-                    if !advanced {
-                        break;
-                    }
-                    prefix = c;
-                }
-            }
-        }
-    }
-    let dfs_schedules = schedules;
-    // (a2) seeded random schedules, 3 savers, more strings
-    let nrandom = if thorough { 20_000 } else { 400 };
-    let mut rng = Rng::new(args.seed, 16);
-    for j in 0..nrandom {
-        let k = rng.range(2, 8) as usize;
-        let mode = *rng.pick(&["equal", "disjoint", "overlap", "shared-reference"]);
-        let nsavers = rng.range(2, 3) as usize;
-        let light = rng.chance(3, 4);
-        let books = make_books(k, mode, mode == "shared-reference", nsavers);
-        // PCT-like: one saver is preferred, with a few random change points
-        let mut prio = rng.below(nsavers as u64) as usize;
-        let mut r2 = rng.clone();
-        let r = run_schedule(&books, light, &sched, &mut |_step, n| {
-            if r2.chance(1, 6) {
-                prio = r2.below(3) as usize;
-            }
-            if r2.chance(1, 3) {
-                r2.below(n as u64) as usize
-            } else {
-                prio.min(n - 1)
-            }
-        });
-        rng.next();
+    let books = make_books(u.k, u.mode, u.mode == "shared-reference", u.nsavers);
+    let mut prefix: Vec<usize> = vec![];
+    loop {
+        let pfx = prefix.clone();
+        let r = run_schedule(&books, u.light, sched, &mut |step, _n| if step < pfx.len() { pfx[step] } else { 0 });
         schedules += 1;
-        let sig: Vec<usize> = r.log.iter().filter(|e| e.1 != "sst.reg.done").map(|e| e.0).collect();
-        let mut key = vec![k, light as usize, nsavers, fnv(mode) as usize % 997];
-        key.extend(sig);
-        distinct.insert(key);
-        check_run(&mut o, &books, &r, &format!("random#{} k={} {} savers={}", j, k, mode, nsavers));
-        if r.stuck.is_some() {
+        distinct.insert(r.grants.clone());
+        check_run(o, &books, &r, &u.label);
+        if r.stuck.is_some() || o.divs.len() > 20 || (u.cap > 0 && schedules >= u.cap) {
+            complete = false;
             break;
         }
+        // next schedule: bump the last choice that still has an unexplored sibling
+        let mut c = r.choices.clone();
+        let mut i = c.len();
+        let mut advanced = false;
+        while i > 0 {
+            i -= 1;
+            if c[i] + 1 < r.options[i] {
+                c[i] += 1;
+                c.truncate(i + 1);
+                advanced = true;
+                break;
+            }
+        }
+        if !advanced {
+            break;
+        }
+        prefix = c;
     }
+    (schedules, distinct.len() as u64, complete)
+}
+
+fn esc(s: &str) -> String {
+    s.replace('\\', "\\\\").replace('\n', "\\n").replace('\t', "\\t")
+}
+fn unesc(s: &str) -> String {
+    let mut o = String::new();
+    let mut it = s.chars();
+    while let Some(c) = it.next() {
+        if c == '\\' {
+            match it.next() {
+                Some('n') => o.push('\n'),
+                Some('t') => o.push('\t'),
+                Some(x) => o.push(x),
+                None => {}
+            }
+        } else {
+            o.push(c);
+        }
+    }
+    o
+}
+
+/// child process: one unit, result as tab-separated lines on stdout
+pub fn unit_cmd(args: &Args) {
+    let us = units(args.tier == "thorough");
+    let u = &us[args.get_u64("unit", 0) as usize];
+    let sched = install_scheduler();
+    let mut o = Outcome::default();
+    let (schedules, distinct, complete) = run_unit(u, args.seed, &sched, &mut o);
     verif_hooks::set_hook(None);
+    let mut out = String::new();
+    out.push_str(&format!("UNIT\t{}\t{}\t{}\t{}\t{}\n", esc(&u.label), schedules, distinct, complete as u8, o.observations));
+    for d in &o.divs {
+        out.push_str(&format!("DIV\t{}\t{}\n", esc(&d.sig), esc(&d.detail)));
+    }
+    if let Some(i) = &o.inconclusive {
+        out.push_str(&format!("INCONCLUSIVE\t{}\n", esc(i)));
+    }
+    out.push_str("END\n");
+    print!("{}", out);
+}
+
+pub fn run(args: &Args) {
+    let thorough = args.tier == "thorough";
+    let us = units(thorough);
+    let mut o = Outcome::default();
+    let exe = std::env::current_exe().unwrap();
+    let next = std::sync::atomic::AtomicUsize::new(0);
+    let results: Mutex<Vec<(usize, Result<String, String>)>> = Mutex::new(vec![]);
+    // heaviest units first (three savers, then larger k)
+    let mut order: Vec<usize> = (0..us.len()).collect();
+    order.sort_by_key(|&i| std::cmp::Reverse((us[i].nsavers, us[i].k)));
+    std::thread::scope(|sc| {
+        for _ in 0..args.threads.min(14).max(1) {
+            sc.spawn(|| loop {
+                let j = next.fetch_add(1, std::sync::atomic::Ordering::SeqCst);
+                if j >= order.len() {
+                    break;
+                }
+                let i = order[j];
+                let r = std::process::Command::new(&exe)
+                    .args(["c16unit", "--unit", &i.to_string(), "--tier", &args.tier, "--seed", &args.seed.to_string()])
+                    .output();
+                let r = match r {
+                    Ok(out) => {
+                        let s = String::from_utf8_lossy(&out.stdout).to_string();
+                        if out.status.success() && s.ends_with("END\n") {
+                            Ok(s)
+                        } else {
+                            Err(format!("exit {:?}; stderr tail: {}", out.status.code(), String::from_utf8_lossy(&out.stderr).chars().rev().take(600).collect::<String>().chars().rev().collect::<String>()))
+                        }
+                    }
+                    Err(e) => Err(format!("cannot start: {}", e)),
+                };
+                results.lock().unwrap().push((i, r));
+            });
+        }
+    });
+    let mut per_unit: BTreeMap<String, J> = BTreeMap::new();
+    let (mut schedules, mut dfs_schedules, mut distinct) = (0u64, 0u64, 0u64);
+    let mut all_complete = true;
+    let mut results = results.into_inner().unwrap();
+    results.sort_by_key(|r| r.0);
+    for (i, r) in results {
+        match r {
+            Err(e) => {
+                // a child that died is a harness/platform problem unless it left a divergence behind
+                o.inconclusive = Some(format!("unit {:?} did not finish: {}", us[i].label, e));
+            }
+            Ok(s) => {
+                for line in s.lines() {
+                    let f: Vec<&str> = line.split('\t').collect();
+                    match f[0] {
+                        "UNIT" => {
+                            let (n, d, c, obs): (u64, u64, bool, u64) = (f[2].parse().unwrap(), f[3].parse().unwrap(), f[4] == "1", f[5].parse().unwrap());
+                            schedules += n;
+                            distinct += d;
+                            o.observations += obs;
+                            if us[i].random.is_none() {
+                                dfs_schedules += n;
+                                all_complete &= c || us[i].cap > 0;
+                                per_unit.insert(unesc(f[1]), jo(vec![("schedules", J::I(n as i64)), ("distinct_interleavings", J::I(d as i64)), ("all_interleavings_enumerated", J::B(c))]));
+                            }
+                        }
+                        "DIV" => o.div(unesc(f[1]), unesc(f[2])),
+                        "INCONCLUSIVE" => o.inconclusive = Some(unesc(f[1])),
+                        _ => {}
+                    }
+                }
+            }
+        }
+    }
     // (b) free-running stress without the scheduler
     let rounds = if thorough { 3000 } else { 200 };
     let stress = stress_rounds(rounds, args.seed, &mut o);
     o.count("schedules.dfs", dfs_schedules);
     o.count("schedules.random", schedules - dfs_schedules);
     o.count("stress.rounds", stress);
-    o.count("distinct_inputs", distinct.len() as u64);
+    o.count("distinct_inputs", distinct);
     o.nontrivial = true;
     o.hash = 16;
-    o.descr = jo(vec![("dfs_schedules_per_configuration", J::O(per_config.iter().map(|(k, v)| (k.clone(), J::I(*v as i64))).collect()))]);
+    o.descr = jo(vec![("controlled_schedule_units", J::O(per_unit.into_iter().collect()))]);
     let mut agg = Agg::default();
     agg.evaluations = schedules + stress;
     merge(&mut agg, args, 0, o);
-    agg.evaluations -= 0;
-    finish(args, agg, vec![("distinct_interleavings", J::I(distinct.len() as i64)), ("exhaustive_small_configurations", J::B(true))]);
+    finish(args, agg, vec![("distinct_interleavings", J::I(distinct as i64)), ("exhaustive_small_configurations", J::B(all_complete))]);
 }
 
 /// free-running concurrent saves (no scheduler); also used by the ThreadSanitizer and Miri builds
@@ -394,7 +532,7 @@ pub fn stress_rounds_with(rounds: u64, seed: u64, o: &mut Outcome, maxk: u32, li
     let mut rng = Rng::new(seed, 1616);
     for j in 0..rounds {
         let k = rng.range(1, maxk) as usize;
-        let mode = *rng.pick(&["equal", "disjoint", "overlap", "shared-reference"]);
+        let mode = *rng.pick(&["equal", "disjoint", "overlap", "shared-reference", "lazy-shared", "lazy-clones"]);
         let nsavers = rng.range(2, 3) as usize;
         let light = light_only || rng.chance(1, 2);
         let books = make_books(k, mode, mode == "shared-reference", nsavers);
@@ -417,7 +555,7 @@ pub fn stress_rounds_with(rounds: u64, seed: u64, o: &mut Outcome, maxk: u32, li
             })
             .collect();
         let outs: Vec<Result<Vec<u8>, String>> = hs.into_iter().map(|h| h.join().unwrap_or_else(|_| Err("saver thread died".into()))).collect();
-        let r = RunOut { choices: vec![], options: vec![], outs, log: vec![], stuck: None };
+        let r = RunOut { grants: vec![], choices: vec![], options: vec![], outs, log: vec![], stuck: None };
         check_run(o, &books, &r, &format!("stress#{} k={} {} savers={}", j, k, mode, nsavers));
     }
     rounds
